@@ -137,7 +137,12 @@ pub fn check(cx: &Cx, rep: &mut Report) {
             // after that would itself bring the count back up and hide behind the later, final zero).  Only where
             // nothing inside the library holds a transient strong handle (a timer's or the broker's send in flight).
             if let (Some(g1), false, false, false) = (af.first_gone_at, af.has_timers, broker_used, af.parked) {
-                if o.b > g1 && !cx.mt {
+                // an operation in flight through a weak handle (`try_call`, `try_send`, ... upgrade for their own
+                // duration) is a strong handle while it lasts: the count was not zero then
+                let weak_op_in_flight = ix.ops.iter().any(|w| {
+                    w.tag == af.tag && !w.hk.strong() && w.op != OpK::Upgrade && w.b < o.b && w.e.map(|e| e > g1).unwrap_or(true)
+                });
+                if o.b > g1 && !cx.mt && !weak_op_in_flight {
                     rep.premise("C05.R3.upgrade_after_first_zero");
                     if some {
                         rep.fail(P, "R3", format!("upgrade_after_first_zero={:?}", o.hk), format!("upgrade of a {:?} at #{} succeeded although no strong handle had been left at #{g1}", o.hk, o.b), vec![g1, o.b]);
